@@ -402,7 +402,7 @@ fn callback_findings(s: &dyn Subject, sd: &SubjectDef, input: &[u8], obs: &Obs, 
 /// All findings of one (subject, input) for `prop`.
 fn check_input(prop: &str, s: &dyn Subject, sd: &SubjectDef, p: &Prepared, input: &[u8], mut run: Option<&mut Run>, def_key: u64) -> Vec<Finding> {
     let utf8 = sd.def.utf8;
-    let mode = Mode { trace: prop == "C20", ..Mode::default() };
+    let mode = Mode { trace: prop == "C20" || prop == "C02", ..Mode::default() };
     // C05: the source is an exactly sized heap allocation, so that a sanitizer build sees any read past its end
     let exact: Box<[u8]> = input.into();
     let input: &[u8] = &exact;
@@ -428,6 +428,34 @@ fn check_input(prop: &str, s: &dyn Subject, sd: &SubjectDef, p: &Prepared, input
                 f.extend(jf);
                 let skips = if sd.skip_log { Some(&obs.skips[..]) } else { None };
                 f.extend(tiling(input.len(), &obs.items, skips, obs.ended, obs.none_again));
+                if prop == "C02" {
+                    // general clause: an attempt stops consuming exactly when no pattern can match an extension of
+                    // what was read - no read may START beyond the longest viable prefix (+1 byte of slack;
+                    // chunked reads may cover later bytes, that is batching, not consumption)
+                    let mut i = 0;
+                    let t = &obs.trace;
+                    while i < t.len() {
+                        if t[i].0 == 0 {
+                            let start = t[i].1;
+                            let mut j = i + 1;
+                            let mut maxoff = start;
+                            while j < t.len() && t[j].0 == 1 {
+                                maxoff = maxoff.max(t[j].1);
+                                j += 1;
+                            }
+                            if start < input.len() && j > i + 1 {
+                                let a = p.reflex.attempt(input, start, &p.prio);
+                                if maxoff > start + a.viable + 1 {
+                                    f.push(fnd("C02", start, format!("the attempt at {start} read at offset {maxoff} although no pattern can match any extension of the first {} bytes read from {start}", a.viable)));
+                                    break;
+                                }
+                            }
+                            i = j;
+                        } else {
+                            i += 1;
+                        }
+                    }
+                }
                 if let Some(run) = run.as_deref_mut() {
                     run.count("attempts", st.attempts as u64);
                     run.count("error_attempts", st.err_attempts as u64);
